@@ -19,6 +19,7 @@ import r_grammar
 import r_parsers
 import r_lookup
 import grammar
+import r_unit
 
 TRUST_COMMON = [
     "rustc nightly: MIR (mir-opt-level=0), type and trait resolution as dumped by driver/lrfacts",
@@ -264,6 +265,18 @@ def c17(rep, tier):
     fns = [f for f in p.fns.values() if f.id.startswith("liquid_core::model::scalar::datetime::")]
     r_strslice.run(p, rep, sorted(fns, key=lambda f: f.id))
     r_cmp.run_mirror(p, rep)
+    rep.analysed["config:all"] = {"bodies": len(p.fns)}
+
+
+def c13(rep, tier):
+    p = P("all")
+    r_unit.run(p, rep)
+    r_unit.run_split_join(p, rep)
+    r_unit.run_truncate_decision(p, rep)
+    r_lookup.run_fold_order(p, rep)
+    import r_strslice
+    fns = [f for f in p.fns.values() if f.id.startswith("liquid_lib::stdlib::filters::string::") or f.id.startswith("liquid_lib::stdlib::filters::slice::")]
+    r_strslice.run(p, rep, sorted(fns, key=lambda f: f.id))
     rep.analysed["config:all"] = {"bodies": len(p.fns)}
 
 
@@ -543,5 +556,20 @@ PROPS = {
         ),
         "trusted": TRUST_COMMON + ["time crate accessors mean what their names say"],
         "note": "which field feeds which directive is decided; how it is padded is not",
+    },
+    "C13": {
+        "run": c13,
+        "level": "other",
+        "design_ref": "DESIGN.md §3 R-UNIT, R-FOLD, R-SPLITJOIN, R-TRUNC; §4 C13",
+        "technique": "unit (bytes vs characters) taint: str::len values flowing into returned sizes, character-iterator skip/take, or comparisons with user-supplied counts; dataflow shape of the filter fold; callee census of split/join",
+        "explanation": (
+            "Decided: in the string filters, slice and the `.size` overlay no byte length is returned as a size, drives skip/take on a character iterator or is "
+            "compared with/subtracted from a user-supplied count (known finding: truncate, whose byte comparison is asserted by an existing unit test); a filter chain "
+            "is entry = filter(entry) over self.filters in declaration order; split returns str::split's fields unfiltered and join joins every element (so join "
+            "inverts split); truncate returns the input unchanged unless it is longer than the limit itself. NOT decided: each filter's documented function and the "
+            "algebraic laws on all strings."
+        ),
+        "trusted": TRUST_COMMON,
+        "note": "a units discipline, not a specification of each filter",
     },
 }
